@@ -11,6 +11,7 @@
 import FordModel.Graph
 import FordModel.Lemmas.Graph
 import FordModel.Lemmas.GraphData
+import FordModel.Lemmas.GraphCalls
 namespace Ford.C13
 open Ford Ford.Graph
 
@@ -167,6 +168,54 @@ theorem call_skip_kept (tab : Table) (fuel : Nat) (calls r : List Node)
   | here hk => exact hk
   | skip _ _ _ ih => exact ih
 
+/-- **`get_call_nodes` always runs to its end**: with the fuel the model supplies the work list is
+    never cut short, on any table (cycles of hidden procedures, simple bindings, names the table
+    does not know), so `callNodes` is the value the three theorems above speak about. -/
+theorem call_skip_total (tab : Table) (calls : List Node) :
+    callNodesAux tab (callFuel tab + calls.length) calls [] [] = some (callNodes tab calls) :=
+  callNodes_spec tab calls
+
+/-- **The nodes shown for a call list are exactly the nearest visible, non-simple-binding
+    descendants of its calls** — unconditionally, for every table and every call list.  The right
+    hand side mentions nothing but the entity table and the list: what is shown for a caller does
+    not depend on which other callers were walked before it, nor on their order. -/
+theorem call_skip_exact (tab : Table) (calls : List Node) (x : Node) :
+    x ∈ callNodes tab calls ↔ ∃ c ∈ calls, Nearest tab c x :=
+  mem_callNodes tab calls x
+
+/-- **Every caller of a procedure shows everything that stands in for it**: whatever is shown for
+    the single call `c` is shown for every call list that contains `c` (a hidden helper shared by
+    many callers is expanded in full for each of them) ... -/
+theorem call_skip_every_caller (tab : Table) (calls : List Node) (c : Node) (hc : c ∈ calls) :
+    ∀ x ∈ callNodes tab [c], x ∈ callNodes tab calls := by
+  intro x hx
+  obtain ⟨c', hc', hn⟩ := (mem_callNodes tab [c] x).1 hx
+  simp only [List.mem_singleton] at hc'
+  subst hc'
+  exact (mem_callNodes tab calls x).2 ⟨_, hc, hn⟩
+
+/-- ... and a call list shows nothing but the union of what its calls show one by one (sharing
+    `visited` between the calls of one list loses nothing and adds nothing). -/
+theorem call_skip_union (tab : Table) (a b : List Node) (x : Node) :
+    x ∈ callNodes tab (a ++ b) ↔ x ∈ callNodes tab a ∨ x ∈ callNodes tab b := by
+  simp only [mem_callNodes, List.mem_append]
+  constructor
+  · rintro ⟨c, hc | hc, hn⟩
+    · exact Or.inl ⟨c, hc, hn⟩
+    · exact Or.inr ⟨c, hc, hn⟩
+  · rintro (⟨c, hc, hn⟩ | ⟨c, hc, hn⟩)
+    · exact ⟨c, Or.inl hc, hn⟩
+    · exact ⟨c, Or.inr hc, hn⟩
+
+/-- **What stands in for a hidden procedure is what stands in for its own calls and bindings** —
+    the fixed-point equation of the skipping rule, for every hidden procedure or simple binding,
+    on a cycle of hidden procedures or not (mutually recursive helpers stand for the same nodes
+    whichever of them a caller enters first). -/
+theorem call_skip_hidden_unfold (tab : Table) (c x : Node) (hk : keep tab c = false) :
+    x ∈ callNodes tab [c] ↔ x ∈ callNodes tab (callChildren tab c) := by
+  simp only [mem_callNodes, List.mem_singleton, exists_eq_left]
+  exact nearest_skip_iff tab c x hk
+
 /-- **`graph: false` removes the entity's own graphs**: every per-entity graph `graph_all`
     draws belongs to an entity whose metadata say `graph: true`. -/
 theorem graph_false_no_own_graph (fx : Bool) (tab : Table) (nd : NodeData) (order : List Node) (e : Node)
@@ -226,6 +275,100 @@ theorem relation_exact_later (tab : Table) (f1 f2 : Nat) (w1 w2 : List Node) (nd
 theorem registered_have_nodes (tab : Table) (fuel : Nat) (work : List Node) (nd : NodeData)
     (h : create tab fuel work {} = some nd) : ∀ x ∈ work, x ∈ nd.created :=
   (create_created tab fuel work {} nd h).2
+
+/-- **Caller-to-callee edges, node level.**  After any run of `register` / `get_node` (any
+    creation order, both phases) the `calls` set of the node of a procedure or program `a` holds
+    `t` iff `a` has a node and `t` is a nearest visible, non-simple-binding descendant of one of
+    the calls (for procedures: and bindings) of `a`. -/
+theorem calls_shown_exact (tab : Table) (f1 f2 : Nat) (w1 w2 : List Node) (nd1 nd2 : NodeData)
+    (h1 : create tab f1 w1 {} = some nd1) (h2 : create tab f2 w2 nd1 = some nd2) (a t : Node) :
+    t ∈ fwdOf nd2 a .call ↔ a ∈ nd2.created ∧ ∃ c ∈ rawCalls tab a, Nearest tab c t := by
+  rw [relation_exact_later tab f1 f2 w1 w2 nd1 nd2 h1 h2, mem_targets_call, mem_callNodes]
+
+/-- **Two callers of the same hidden procedure show the same stand-ins.**  If the nodes of `a` and
+    `b` both exist and both entities call `h`, then every node that stands in for `h` is in the
+    `calls` set of `a` **and** of `b`, and (inverse sets) both are in its `called_by` set —
+    whichever of the two nodes was created first. -/
+theorem hidden_shared_by_callers (tab : Table) (f1 f2 : Nat) (w1 w2 : List Node) (nd1 nd2 : NodeData)
+    (h1 : create tab f1 w1 {} = some nd1) (h2 : create tab f2 w2 nd1 = some nd2) (a b h t : Node)
+    (ha : a ∈ nd2.created) (hb : b ∈ nd2.created)
+    (hha : h ∈ rawCalls tab a) (hhb : h ∈ rawCalls tab b) (ht : Nearest tab h t) :
+    (t ∈ fwdOf nd2 a .call ∧ t ∈ fwdOf nd2 b .call) ∧ (a ∈ invOf nd2 t .call ∧ b ∈ invOf nd2 t .call) := by
+  have fa := (calls_shown_exact tab f1 f2 w1 w2 nd1 nd2 h1 h2 a t).2 ⟨ha, h, hha, ht⟩
+  have fb := (calls_shown_exact tab f1 f2 w1 w2 nd1 nd2 h1 h2 b t).2 ⟨hb, h, hhb, ht⟩
+  exact ⟨⟨fa, fb⟩, (inverse_sets_later tab f1 f2 w1 w2 nd1 nd2 h1 h2 a t .call).2 fa,
+    (inverse_sets_later tab f1 f2 w1 w2 nd1 nd2 h1 h2 b t .call).2 fb⟩
+
+/-- **Bound procedures in the project-wide call graph (partial).**  A type-bound procedure of a
+    registered type that `get_call_nodes` keeps as a node of its own (`keep`) is a root of the
+    project-wide call graph, so the caller-to-callee edges that leave it are drawn there as they
+    are in the "calls" graph of its callers.  Excluded for the code as it is (`fb = false`), by
+    the decidable hypothesis `hx`: exactly one binding, to a procedure that is not shown (and not
+    itself bound), not deferred — finding `C13-binding-to-hidden-not-root`, see
+    `bound_root_witness`. -/
+theorem bound_root_partial (tab : Table) (regs : List Node) (per : List (Node × GClass × GState))
+    (t bp : Node) (ht : t ∈ regs) (hk : (ent tab t).kind = .type) (hb : bp ∈ (ent tab t).boundprocs)
+    (hbound : (ent tab bp).isBound = true) (hkeep : keep tab bp = true)
+    (hx : ¬ ∃ b, (ent tab bp).bindings = [b] ∧ (ent tab b).isBound = false
+            ∧ (ent tab b).visibleF = false ∧ (ent tab bp).deferred = false) :
+    bp ∈ callRootsOf false tab regs per := by
+  have hroot : boundRoot false tab bp = true := by
+    simp only [keep, isSimple, hbound, Bool.true_and, Bool.and_eq_true, Bool.not_eq_true'] at hkeep
+    unfold boundRoot
+    rcases hbs : (ent tab bp).bindings with _ | ⟨b, _ | ⟨c, rest⟩⟩
+    · simp
+    · rw [hbs] at hkeep
+      cases hbb : (ent tab b).isBound
+      · exfalso
+        apply hx
+        refine ⟨b, hbs, hbb, ?_, ?_⟩
+        · cases hv : (ent tab b).visibleF <;> simp_all
+        · cases hd : (ent tab bp).deferred <;> simp_all
+      · simp [hbb]
+    · simp
+  simp only [callRootsOf, List.mem_append, mem_dedup, List.mem_flatMap, List.mem_filter]
+  exact Or.inl (Or.inr ⟨t, ⟨ht, by simp [isKind, hk]⟩, hb, hroot⟩)
+
+/-- ... with fixes/C13-binding-to-hidden-root.diff (`fb = true`: the same test as
+    `is_simple_binding`) there is no excluded class: every kept bound procedure of a registered
+    type is a root. -/
+theorem bound_root_fixed (tab : Table) (regs : List Node) (per : List (Node × GClass × GState))
+    (t bp : Node) (ht : t ∈ regs) (hk : (ent tab t).kind = .type) (hb : bp ∈ (ent tab t).boundprocs)
+    (hbound : (ent tab bp).isBound = true) (hkeep : keep tab bp = true) :
+    bp ∈ callRootsOf true tab regs per := by
+  have hroot : boundRoot true tab bp = true := by
+    simp only [keep, isSimple, hbound, Bool.true_and, Bool.and_eq_true, Bool.not_eq_true'] at hkeep
+    unfold boundRoot
+    rcases hbs : (ent tab bp).bindings with _ | ⟨b, rest⟩
+    · simp
+    · rw [hbs] at hkeep
+      have h2 := hkeep.2
+      cases rest with
+      | cons c r => simp
+      | nil =>
+        cases hbb : (ent tab b).isBound
+        · cases hd : (ent tab bp).deferred <;> cases hv : (ent tab b).visibleF <;> simp_all
+        · simp [hbb]
+  simp only [callRootsOf, List.mem_append, mem_dedup, List.mem_flatMap, List.mem_filter]
+  exact Or.inl (Or.inr ⟨t, ⟨ht, by simp [isKind, hk]⟩, hb, hroot⟩)
+
+/-- Witness for the excluded class: type `0` with the binding `2 => 3`, `3` hidden and calling
+    the visible `4`, procedure `1` calling the binding.  The binding is kept as a node and the
+    "calls" graph of `1` draws `2 -> 4`; the project-wide call graph of the code as it is draws
+    node `2` but not that edge; with the repaired test it does. -/
+theorem bound_root_witness :
+    let tab : Table := [{ kind := .type, boundprocs := [2], maxNodes := 10 },
+      { kind := .proc, calls := [2], maxDepth := 3, maxNodes := 10 },
+      { kind := .proc, isBoundType := true, isBound := true, bindings := [3] },
+      { kind := .proc, visible := false, calls := [4] },
+      { kind := .proc, maxDepth := 3, maxNodes := 10 }]
+    let asIs := graphAll false false tab [0, 1, 4]
+    let fixed := graphAll false true tab [0, 1, 4]
+    keep tab 2 = true ∧ asIs.ok = true ∧ fixed.ok = true
+      ∧ (asIs.perEntity.any fun (e, c, g) => e == 1 && c == .calls && g.edges.contains ⟨2, 4, .dashed⟩) = true
+      ∧ 2 ∈ asIs.callGraph.added ∧ (⟨2, 4, .dashed⟩ : Edge) ∉ asIs.callGraph.edges
+      ∧ (⟨2, 4, .dashed⟩ : Edge) ∈ fixed.callGraph.edges := by
+  decide +kernel
 
 /-- **Interface-to-implementation, generic interfaces (decision table read from the source).**
     Whatever Python class represents a specific procedure — subroutine, function, interface body
@@ -370,5 +513,15 @@ example :
     callNodesAux [{ kind := .proc }, { kind := .proc, isBound := true, bindings := [2] },
       { kind := .proc, visibleF := true }, { kind := .proc, isBound := true, bindings := [1, 1] }]
       10 [1, 3] [] [] = some [2, 3] := by decide
+
+/-- non-vacuity (round 3): two hidden helpers `2 ⇄ 3` that call each other and reach the visible
+    `4` resp. `5`; the caller that enters at `2` and the caller that enters at `3` are shown the
+    same two nodes. -/
+example :
+    let tab : Table := [{ kind := .proc, calls := [2] }, { kind := .proc, calls := [3] },
+      { kind := .proc, visible := false, calls := [3, 4] }, { kind := .proc, visible := false, calls := [2, 5] },
+      { kind := .proc }, { kind := .proc }]
+    callNodes tab [2] = [5, 4] ∧ callNodes tab [3] = [4, 5] ∧ keep tab 2 = false ∧ keep tab 3 = false := by
+  decide
 
 end Ford.C13
